@@ -15,7 +15,9 @@ VARIABLES rows, cell, steps, last, hist
 vars == <<rows, cell, steps, last, hist>>
 
 C == 1..Cols
-Stamp(k, r, c) == 10 * k + ((r + 3 * c) % 10)
+\* every third write after the first call stores the DEFAULT value (code 0: zero / empty string / false) explicitly, over whatever
+\* the cell holds
+Stamp(k, r, c) == IF k >= 2 /\ (k + r + c) % 3 = 0 THEN 0 ELSE 10 * k + ((r + 3 * c) % 10)
 Call(a, v, res) == [a |-> a, v |-> v, res |-> res]
 NoArg == [r |-> 0, cols |-> <<>>, c |-> 0, off |-> 0, cnt |-> 0, n |-> 0]
 Step(x) == last' = x /\ hist' = Append(hist, x) /\ steps' = steps + 1
